@@ -351,6 +351,8 @@ func caseConsts(res *Result) map[string]map[string]bool {
 }
 
 func ruleC11(c *Ctx) {
+	c.rule("C11-R11", "the decrypted plaintext is not written to after decryption: no append over a prefix of bytes a function did not make anywhere in the inbound cone (shared aliasingAppend) — a log preview built with append(b[:n], \"...\"...) overwrites plaintext bytes n..n+2")
+	aliasingAppend(c, "C11-R11", c09Roots, true)
 	c.rule("C11-R1", "advertised ⊆ handled: every EncryptionMethod algorithm published by Metadata / MetadataWithSLO is a case of the symmetric switch in DecryptBytes that leads to a decryption (not the default error); both metadata functions advertise the same set")
 	c.rule("C11-R2", "exported ⊆ handled: every exported key-transport constant (MethodRSA*) and digest constant (MethodSHA*) of package types is a case in DecryptSymmetricKey; absent DigestMethod and \"\" select SHA-1")
 	c.rule("C11-R3", "key-source decision tables, role encryption: the key that decrypts (getDecryptCert) and the certificate reported / published (GetEncryptionCertBytes, metadata) pick the same source for all 16 field/setter configurations")
@@ -736,6 +738,21 @@ func advertisedHandled(c *Ctx, rule string) *Result {
 // ---------------------------------------------------------------- C19
 
 func ruleC19(c *Ctx) {
+	c.rule("C19-R5", "every field in the type tree of the published EntityDescriptor is an attribute, element or chardata of encoding/xml (escaped); none is tagged `,comment` or `,innerxml` (emitted raw: Marshal fails or the text is verbatim for some configured strings)")
+	if f := c.fn("(*SAMLServiceProvider).MetadataWithSLO"); f != nil && f.Signature.Results().Len() > 0 {
+		n := rawXMLFields(c, "C19-R5", f.Signature.Results().At(0).Type())
+		c.count("C19-R5/fields", n)
+		c.floor("C19-R5/fields", 20)
+		nb := 0
+		for _, o := range c.Obs {
+			if o.Rule == "C19-R5" {
+				nb++
+			}
+		}
+		if nb == 0 {
+			c.ok("C19-R5", "types.EntityDescriptor", "no raw-emitted field in the descriptor's type tree", "-", fmt.Sprintf("%d fields inspected", n))
+		}
+	}
 	c.rule("C19-R1", "metadata wiring table for Metadata and MetadataWithSLO: EntityID, ACS endpoint (POST binding, index 1), SLO endpoint (POST binding), AuthnRequestsSigned, WantAssertionsSigned = !SkipSignatureValidation, protocolSupportEnumeration, key descriptor uses and base64(StdEncoding) of the reported certificates")
 	c.rule("C19-R2", "published keys = keys really used: decision-table agreement with the signer (C13) and the decrypter (C11); advertised methods ⊆ handled (C11-R1)")
 	c.rule("C19-R4", "configuration setters write exactly their own override field (shared setterContract)")
